@@ -226,8 +226,13 @@ def crashed(case, reason):
                                     'detail': reason}]}
 
 
-def run_cases(cases, timeout=300):
+def run_cases(cases, timeout=120):
     out = []
+    if len(cases) > 1:
+        # pre-flight: if the very first case already kills or hangs the worker, do not bisect whole batches
+        pre = core.run_cases_bisect('c13', cases[:1], lambda cs: {'cases': cs}, crashed, 40)
+        if pre[0]['obs'] is None and pre[0]['fails'][0]['clause'] == 'crash-or-hang':
+            return pre + [{'obs': None, 'fails': [{'clause': 'not-run', 'site': 'worker', 'detail': 'the first case already crashed or hung'}]} for c in cases[1:]]
     chunks = [cases[i:i + 500] for i in range(0, len(cases), 500)]
     from concurrent.futures import ThreadPoolExecutor
     with ThreadPoolExecutor(max_workers=core.NCPU) as ex:
@@ -274,6 +279,8 @@ def first_failures(cases, results, limit=6):
     out, seen = [], set()
     for c, r in zip(cases, results):
         for f in r['fails']:
+            if f['clause'] == 'not-run':
+                continue
             sig = (f['clause'], f['site'])
             if sig in seen:
                 continue
